@@ -129,7 +129,7 @@ func Run(ctx *common.Ctx) {
 			step := func(p, q, x int) [5]int { return [5]int{p, q, fv, ff, x} }
 			// x: <12 in-package p; <27 use q in p; <33 unuse q in p; <43 export var in p; <51 export fun in p;
 			// <56 unexport var; <60 unexport fun; <72 setq; <78 defvar; <90 defun; <95 makunbound; else fmakunbound
-			switch ctx.Rng.Intn(16) {
+			switch ctx.Rng.Intn(18) {
 			case 0: // a package used twice, unused once, and only then an export in the used package
 				forced = [][5]int{step(u, pe, 20), step(u, pe, 20), step(u, pe, 30), step(pe, 0, 5), step(0, 0, 65), step(0, 0, 85), step(pe, 0, 40), step(pe, 0, 48)}
 			case 1: // own definitions on both sides, then unexport (of names never exported) in the used package
@@ -144,7 +144,7 @@ func Run(ctx *common.Ctx) {
 			case 5: // a private variable set twice is not pushed to the users
 				forced = [][5]int{step(u, pe, 20), step(pe, 0, 5), step(0, 0, 65), step(0, 0, 65), step(0, 0, 74), step(pe, 0, 40), step(0, 0, 65)}
 			case 6: // use of a package exporting names the package owns
-				forced = [][5]int{step(u, 0, 5), step(0, 0, 65), step(0, 0, 85), step(pe, 0, 5), step(0, 0, 65), step(0, 0, 85), step(pe, 0, 40), step(pe, 0, 48), step(u, pe, 20), step(u, 0, 5), step(0, 0, 92), step(0, 0, 97)}
+				forced = [][5]int{step(u, 0, 5), step(0, 0, 65), step(0, 0, 85), step(pe, 0, 5), step(0, 0, 65), step(0, 0, 85), step(pe, 0, 40), step(pe, 0, 48), step(u, pe, 20), step(0, 0, 92), step(0, 0, 97), step(u, 0, 5), step(0, 0, 92), step(0, 0, 97)}
 			case 7: // fmakunbound / makunbound of exported definitions with users
 				forced = [][5]int{step(pe, 0, 5), step(0, 0, 65), step(0, 0, 85), step(pe, 0, 40), step(pe, 0, 48), step(u, pe, 20), step(w, pe, 20), step(0, 0, 97), step(0, 0, 92), step(0, 0, 85), step(0, 0, 65)}
 			case 8: // export before definition, with a user
@@ -161,6 +161,10 @@ func Run(ctx *common.Ctx) {
 				forced = [][5]int{step(u, pe, 20), step(pe, 0, 40), step(u, 0, 5), step(0, 0, 65), step(pe, 0, 5), step(0, 0, 65), step(pe, 0, 53), step(0, 0, 92)}
 			case 14: // two used packages export the same names: retraction and precedence
 				forced = [][5]int{step(pe, 0, 5), step(0, 0, 65), step(0, 0, 85), step(pe, 0, 40), step(pe, 0, 48), step(w, 0, 5), step(0, 0, 65), step(0, 0, 85), step(w, 0, 40), step(w, 0, 48), step(u, pe, 20), step(u, w, 20), step(pe, 0, 53), step(pe, 0, 58)}
+			case 15: // two users, the first has own definitions of the names, then the exporter defines and exports, unexports, exports again
+				forced = [][5]int{step(u, 0, 5), step(0, 0, 65), step(0, 0, 85), step(u, pe, 20), step(w, pe, 20), step(pe, 0, 5), step(0, 0, 65), step(0, 0, 85), step(pe, 0, 40), step(pe, 0, 48), step(pe, 0, 53), step(pe, 0, 58), step(pe, 0, 40), step(pe, 0, 48)}
+			case 16: // the same with the users in the other order
+				forced = [][5]int{step(u, 0, 5), step(0, 0, 65), step(0, 0, 85), step(w, pe, 20), step(u, pe, 20), step(pe, 0, 5), step(0, 0, 65), step(0, 0, 85), step(pe, 0, 40), step(pe, 0, 48), step(pe, 0, 53), step(pe, 0, 58), step(pe, 0, 40), step(pe, 0, 48)}
 			default: // chain u -> pe -> w (transitive inheritance), then changes in w
 				forced = [][5]int{step(w, 0, 5), step(0, 0, 65), step(0, 0, 85), step(w, 0, 40), step(w, 0, 48), step(pe, w, 20), step(u, pe, 20), step(w, 0, 53), step(u, w, 20), step(u, pe, 30)}
 			}
@@ -312,7 +316,7 @@ func Run(ctx *common.Ctx) {
 		}
 	}
 	ctx.Meta.DistinctNontrivial = len(distinct)
-	ctx.Meta.Rule = "random histories (2..12 ops, thorough 2..14; 70% focused on one variable, one function and one exporting package; 35% start with one of 16 scripted openings of 7..14 steps, one per repaired finding of C13: unuse, private setq, use over own names, (f)makunbound of exported and of inherited names, export before definition, defun on inherited names, unexport in a user, two exporters of one name, use chains) over 3 fresh packages x {in-package, use-package, unuse-package, export, unexport, setq, defvar, defun, makunbound, fmakunbound} x 2 variable and 2 function names; after every step 84 resolutions (3 current packages x 4 names x {plain, p:, p::} x 3 packages); distinct = distinct op sequences (all have >= 2 ops)"
+	ctx.Meta.Rule = "random histories (2..12 ops, thorough 2..14; 70% focused on one variable, one function and one exporting package; 35% start with one of 18 scripted openings of 7..14 steps, one per repaired finding of C13: unuse, private setq, use over own names, (f)makunbound of exported and of inherited names, export before definition, defun on inherited names, unexport in a user, two exporters of one name, use chains) over 3 fresh packages x {in-package, use-package, unuse-package, export, unexport, setq, defvar, defun, makunbound, fmakunbound} x 2 variable and 2 function names; after every step 84 resolutions (3 current packages x 4 names x {plain, p:, p::} x 3 packages); distinct = distinct op sequences (all have >= 2 ops)"
 	header := "From C13 Require Import Model Spec Corr.\nOpen Scope Z_scope.\n"
 	footer := "Definition res := Eval vm_compute in check_all cases.\nPrint res.\n" +
 		"Definition gcount := Eval vm_compute in guard_count cases.\nPrint gcount.\n"
